@@ -137,6 +137,13 @@ CHECKS.update({
    note=TB_Z),
 })
 
+
+CHECKS.update({
+ "C24": dict(level="proof", engine="A", technique="Coq termination theorems for the anchored loop patterns (series loop with divergence/threshold stop, precision-doubling retry, giant_steps) for every sequence of computed terms; watchdog sweep over public functions with solo re-run of slow calls",
+   text="The stop conditions of the asymptotic-series loops (mpf_psi0 and, since the fix, mpc_psi0), of the hypsum/hypercomb precision-doubling retry and of giant_steps are proved to fire after an explicitly bounded number of iterations whatever the terms are. All registered public functions plus a directed family aimed at those loops are run under a watchdog at precisions 10..200 (to 3000 in the thorough tier); a call still running after a generous limit alone in a fresh process is reported with its arguments. This found (and the repo now fixes) a non-terminating loop in mpc_psi0.",
+   note=TB_Z + " Termination of loops outside the three proved patterns is observed by the sweep, not proved; primezeta near its natural boundary is excluded."),
+})
+
 NOT_APPLICABLE = {
 }
 
